@@ -92,6 +92,23 @@ static void fill_data(Rng &r, Problem &p, int ykind, const std::vector<float> *g
 		p.y.push_back(v); p.w.push_back(std::pow(10.0, r.U() * 6 - 3));
 	}
 }
+// 2-norm condition estimate of a dense symmetric positive definite matrix: Cholesky in long double, lambda_min by inverse power iteration,
+// lambda_max by power iteration; returns +inf if the matrix is not positive definite in long double
+static double cond_estimate(const std::vector<LD> &Hin, size_t nt) {
+	std::vector<LD> L(Hin);
+	for (size_t j = 0; j < nt; j++) { LD sv = L[j * nt + j]; for (size_t k = 0; k < j; k++) sv -= L[j * nt + k] * L[j * nt + k]; if (!(sv > 0)) return INFINITY; LD l = sqrtl(sv); L[j * nt + j] = l; for (size_t i = j + 1; i < nt; i++) { LD t = L[i * nt + j]; for (size_t k = 0; k < j; k++) t -= L[i * nt + k] * L[j * nt + k]; L[i * nt + j] = t / l; } }
+	std::vector<LD> v(nt), w(nt); for (size_t i = 0; i < nt; i++) v[i] = 1.0L + 0.37L * (LD)((i * 7919) % 13);
+	LD lmin_inv = 0, lmax = 0;
+	for (int it = 0; it < 25; it++) { // inverse iteration: solve L L' w = v
+		LD nv = 0; for (LD q : v) nv += q * q; nv = sqrtl(nv); for (auto &q : v) q /= nv;
+		for (size_t i = 0; i < nt; i++) { LD t = v[i]; for (size_t k = 0; k < i; k++) t -= L[i * nt + k] * w[k]; w[i] = t / L[i * nt + i]; }
+		for (size_t i = nt; i-- > 0;) { LD t = w[i]; for (size_t k = i + 1; k < nt; k++) t -= L[k * nt + i] * w[k]; w[i] = t / L[i * nt + i]; }
+		LD nw = 0; for (LD q : w) nw += q * q; lmin_inv = sqrtl(nw); v = w;
+	}
+	for (size_t i = 0; i < nt; i++) v[i] = 1.0L + 0.11L * (LD)((i * 104729) % 7);
+	for (int it = 0; it < 25; it++) { LD nv = 0; for (LD q : v) nv += q * q; nv = sqrtl(nv); for (auto &q : v) q /= nv; for (size_t i = 0; i < nt; i++) { LD t = 0; for (size_t k = 0; k < nt; k++) t += Hin[i * nt + k] * v[k]; w[i] = t; } LD nw = 0; for (LD q : w) nw += q * q; lmax = sqrtl(nw); v = w; }
+	return (double)(lmax * lmin_inv);
+}
 struct Oracle { std::vector<LD> H, r; bool pd = false; double pivot_ratio = 0; };
 static Oracle build_oracle(const Problem &p) {
 	Oracle o; size_t nt = p.ntot; o.H.assign(nt * nt, 0); o.r.assign(nt, 0);
@@ -159,6 +176,7 @@ static void run_C09(const Args &a, long cs) {
 	Oracle o = build_oracle(p);
 	count("problems"); count("ndim:" + std::to_string(p.nd)); count("ykind:" + std::to_string(ykind)); for (int d = 0; d < p.nd; d++) { count("order:" + std::to_string(p.ord[d])); count("penaltyOrder:" + std::to_string(p.por[d])); if (p.lam[d] == 0) count("dims-with-zero-smoothing"); }
 	if (!o.pd || o.pivot_ratio < 1e-9) { count("problems-skipped(ill-posed)"); return; }
+	{ double kappa = cond_estimate(o.H, p.ntot); if (!(kappa < 1e11)) { count("problems-skipped(condition>1e11)"); return; } count(kappa < 1e4 ? "condition:<1e4" : kappa < 1e8 ? "condition:<1e8" : "condition:<1e11"); }
 	count("problems-well-posed");
 	uint64_t h = hash_mix(9, p.ntot); for (double v : p.y) h = hash_d(h, v); for (int d = 0; d < p.nd; d++) for (double k : p.kn[d]) h = hash_d(h, k);
 	std::vector<double> lam = p.lam; std::vector<uint32_t> por = p.por;
@@ -253,17 +271,35 @@ static void run_C10(const Args &a, long cs) {
 		}
 	}
 	static const char *yn[] = {"noisy-increasing", "decreasing", "oscillating", "constant", "gaussian-noise", "from-monotone-spline", "zero-then-rise", "zero-then-rise+1e-10-drift", "all-zero", "tiny-magnitude"};
-	if (ykind >= 6 && ykind <= 7) for (auto &l : p.lam) l = r.coin(0.7) ? 0.0 : 1e-12;
+	if (ykind >= 6 && ykind <= 7) { for (auto &l : p.lam) l = r.coin(0.7) ? 0.0 : 1e-12; if (p.scalar_args) for (auto &l : p.lam) l = p.lam[0]; } // (a shared smoothing argument applies to every dimension)
 	p.kind += std::string("/") + yn[ykind];
 	count("problems"); count("ndim:" + std::to_string(p.nd)); count(std::string("data:") + yn[ykind]); count("monodim:" + std::to_string(monodim)); count("order-along-monodim:" + std::to_string(p.ord[monodim]));
 	std::vector<double> lam = p.lam; std::vector<uint32_t> por = p.por; if (p.scalar_args) { lam.resize(1); por.resize(1); }
-	{ Oracle o = build_oracle(p); if (!o.pd || o.pivot_ratio < 1e-9) { count("problems-skipped(normal-matrix-not-positive-definite)"); return; } }
+	double pivot_T = 0;
+	{ // well-posedness is judged on the system the monotonic fit actually solves: the normal matrix in the T-spline (cumulative) basis along the monotonic dimension
+		Oracle o = build_oracle(p); if (!o.pd || o.pivot_ratio < 1e-9) { count("problems-skipped(normal-matrix-not-positive-definite)"); return; }
+		size_t nt = p.ntot, inner = 1; for (int e = monodim + 1; e < p.nd; e++) inner *= p.n[e]; int nm = p.n[monodim];
+		std::vector<LD> H = o.H;
+		for (size_t col = 0; col < nt; col++) for (size_t a2 = nt; a2-- > 0;) { int j = (int)((a2 / inner) % nm); if (j + 1 < nm) H[a2 * nt + col] += H[(a2 + inner) * nt + col]; }
+		for (size_t row = 0; row < nt; row++) for (size_t b2 = nt; b2-- > 0;) { int j = (int)((b2 / inner) % nm); if (j + 1 < nm) H[row * nt + b2] += H[row * nt + b2 + inner]; }
+		double kappaT = cond_estimate(H, nt);
+		pivot_T = kappaT < 1e6 ? 1.0 : kappaT < 1e11 ? 1e-6 : 0; // (kept as a three-level flag: well conditioned / usable / ill-posed)
+		if (a.verbose) {
+			fprintf(stderr, "case %ld: pivot ratio B-basis %.3g, condition estimate T-basis %.3g, ntot %zu monodim %u\n", cs, o.pivot_ratio, kappaT, nt, monodim);
+			// does CHOLMOD factorise the oracle's matrix (rounded to double)?
+			cholmod_common cc; cholmod_l_start(&cc); cholmod_dense *Hd = cholmod_l_allocate_dense(nt, nt, nt, CHOLMOD_REAL, &cc); for (size_t i = 0; i < nt * nt; i++) ((double *)Hd->x)[i] = (double)H[i];
+			cholmod_sparse *Hs = cholmod_l_dense_to_sparse(Hd, 1, &cc); Hs->stype = 1; cholmod_sparse *Hu = cholmod_l_copy(Hs, 1, 1, &cc); cholmod_factor *Lf = cholmod_l_analyze(Hu, &cc); int okf = cholmod_l_factorize(Hu, Lf, &cc);
+			fprintf(stderr, "CHOLMOD on the oracle's T-basis matrix: factorize=%d status=%d minor=%ld of %zu\n", okf, cc.status, (long)Lf->minor, nt);
+			double dmin = 1e300, dmaxv = 0; for (size_t i = 0; i < nt; i++) { double v = (double)H[i * nt + i]; dmin = std::min(dmin, v); dmaxv = std::max(dmaxv, v); } fprintf(stderr, "diag range %.3g .. %.3g\n", dmin, dmaxv);
+		}
+		if (pivot_T < 1e-9) { count("problems-skipped(T-spline-normal-matrix-ill-conditioned)"); return; }
+	}
 	photospline::ndsparse *data = make_data(p);
 	Table T; long tc0 = g_thread_creates;
 	phase_log("fit(monodim)");
 	bool viaC = cs % 5 == 4; splinetable hnd; hnd.data = nullptr; const float *c = nullptr;
 	try {
-		if (!viaC) { T.fit(*data, p.w, p.co, p.ord, p.kn, lam, por, monodim, false); c = T.get_coefficients(); }
+		if (!viaC) { T.fit(*data, p.w, p.co, p.ord, p.kn, lam, por, monodim, getenv("VF_FIT_VERBOSE") != nullptr); c = T.get_coefficients(); }
 		else {
 			splinetable_init(&hnd); std::vector<const double *> cp, kp; std::vector<uint64_t> nk; for (int d = 0; d < p.nd; d++) { cp.push_back(p.co[d].data()); kp.push_back(p.kn[d].data()); nk.push_back(p.kn[d].size()); }
 			std::vector<double> lamf = p.lam; std::vector<uint32_t> porf = p.por;
@@ -299,7 +335,8 @@ static void run_C10(const Args &a, long cs) {
 			if (U.get_ndim()) {
 				const float *cu = U.get_coefficients(); bool inactive = true; double cmax = 0;
 				for (size_t a2 = 0; a2 < p.ntot; a2++) { cmax = std::max(cmax, (double)std::fabs(cu[a2])); int j = (int)((a2 / inner) % p.n[monodim]); if (cu[a2] < 0.05 || (j > 0 && cu[a2] - cu[a2 - inner] < 0.05)) inactive = false; }
-				if (inactive) {
+				if (inactive && pivot_T < 1e-4) count("inactive-comparisons-skipped(ill-conditioned)");
+				else if (inactive) {
 					double worst = 0; for (size_t a2 = 0; a2 < p.ntot; a2++) worst = std::max(worst, std::fabs((double)cu[a2] - c[a2]));
 					count("inactive-constraint-comparisons");
 					if (worst > 2e-3 * (cmax + 1)) viol("C10:fit(monodim):differs-from-unconstrained-fit-although-constraint-inactive", "{\"max_coefficient_difference\":" + jnum(worst) + ",\"scale\":" + jnum(cmax) + ",\"problem\":" + prob_brief(p) + "}");
@@ -420,8 +457,13 @@ static void run_C13(const Args &a, long cs) {
 	std::vector<double> lamC = lam; std::vector<uint32_t> porC = por;
 	if (!c_expressible && lam.size() == 1 && por.size() == 1 && co.size() == (size_t)p.nd && ord.size() == (size_t)p.nd && kn.size() == (size_t)p.nd && w.size() == idx.size()) { lamC.assign(p.nd, lam[0]); porC.assign(p.nd, por[0]); c_expressible = true; }
 	Exact<double> lamCE(lamC); Exact<uint32_t> porCE(porC);
-	bool c_must_reject = false; for (auto &s : applied) if (s == "index-outside-declared-range" || s == "knots-unsorted" || s == "too-few-knots-for-order" || s == "monodim-out-of-range" || (s == "huge-order" && must_reject)) c_must_reject = true;
-	bool skipC = false; for (auto &s : applied) if (s == "coordinate-vector-shorter-than-range" || s == "declared-range-longer-than-coordinates") skipC = true; // not detectable through raw pointers
+	// what the C signature can express and must reject, decided on the final tuple (array counts are implied by data->ndim there; a coordinate
+	// array shorter than the declared range cannot be detected through a raw pointer and is a precondition of the C call)
+	bool c_must_reject = false, skipC = false;
+	if (c_expressible) {
+		if (monodim != Table::no_monodim && monodim >= (uint32_t)p.nd) c_must_reject = true;
+		for (int d = 0; d < p.nd; d++) { for (auto &I : idx) if (I[d] >= ranges[d]) c_must_reject = true; if (!std::is_sorted(kn[d].begin(), kn[d].end())) c_must_reject = true; if (kn[d].size() < 2 * (uint64_t)ord[d] + 2) c_must_reject = true; if (co[d].size() < ranges[d]) skipC = true; }
+	}
 	if (c_expressible && !skipC) {
 		splinetable hnd; splinetable_init(&hnd);
 		std::vector<const double *> cp, kp; std::vector<uint64_t> nk; for (int d = 0; d < p.nd; d++) { cp.push_back(coE[d]->p); kp.push_back(knE[d]->p); nk.push_back(knE[d]->n); }
